@@ -100,6 +100,13 @@ GIFT2 == [TwoCountry("GIFT2") EXCEPT !.freeq = {8}, !.external = "last",
 IMPORT == [TwoCountry("IMPORT") EXCEPT !.freeq = {3, 9}, !.external = "first",
             !.suppliers = << [mkt |-> 6, sup |-> 9, rule |-> TRUE], [mkt |-> 6, sup |-> 3, rule |-> FALSE] >>,
             !.exo = << Exo(1, "DEM_GOOD"), Exo(7, "DEM_GOOD") >>]
+\* the RESIDUAL supplier of A's goods market is B's business; A's own business supplies a fixed share
+IMPORTRES == [TwoCountry("IMPORTRES") EXCEPT !.freeq = {9}, !.free = {3, 9}, !.external = "last",
+            !.suppliers = << [mkt |-> 6, sup |-> 3, rule |-> TRUE], [mkt |-> 6, sup |-> 9, rule |-> FALSE] >>,
+            !.exo = << Exo(1, "DEM_GOOD"), Exo(7, "DEM_GOOD") >>]
+NOEXT3 == [IMPORTRES EXCEPT !.name = "NOEXT3", !.external = "none", !.freeq = {}, !.free = {9}, !.wellformed = FALSE]
+\* a single country plus an (unused) external sector created last: the country list grows after construction began
+SIMX == [SIM EXCEPT !.name = "SIMX", !.external = "last", !.freeq = {3, 6}, !.free = {3, 5, 6}]
 \* ill-formed: cross-currency flow / supplier without an external sector
 NOEXT1 == [TwoCountry("NOEXT1") EXCEPT !.freeq = {}, !.free = {8}, !.flows = << Flow(2, 8, "GIFT", TRUE, TRUE) >>, !.wellformed = FALSE]
 NOEXT2 == [TwoCountry("NOEXT2") EXCEPT !.freeq = {}, !.free = {8},
@@ -169,6 +176,6 @@ SIMBOND == [Bp("SIMBOND", C1,
               Sd("C", "DEP", "DepositMarket"), Sd("C", "BOND", "DepositMarket") >>, {2, 8, 9})
         EXCEPT !.freeq = {9}, !.exo = << Exo(1, "DEM_GOOD"), Exo(8, "r"), Exo(9, "r") >>]
 
-AllBlueprints == {TWOBUS, TWOGIFTS, SIMBOND, SIMR, SIMEXR, JOIN2, JOIN2X, GOLD2, GOLDNOEXT, SIM, SIMEX, SIMCAP, SIMMARGIN, SIMMON, SIMDEP, PC, MULTI, FED, GIFT, GIFT2, IMPORT, NOEXT1, NOEXT2, NOSUP, TWOSUP}
+AllBlueprints == {TWOBUS, TWOGIFTS, SIMBOND, IMPORTRES, NOEXT3, SIMX, SIMR, SIMEXR, JOIN2, JOIN2X, GOLD2, GOLDNOEXT, SIM, SIMEX, SIMCAP, SIMMARGIN, SIMMON, SIMDEP, PC, MULTI, FED, GIFT, GIFT2, IMPORT, NOEXT1, NOEXT2, NOSUP, TWOSUP}
 QuickBlueprints == { [b EXCEPT !.free = b.freeq] : b \in AllBlueprints }
 =============================================================================
